@@ -1013,9 +1013,33 @@ func ruleLimitAgree(c *Ctx, r *Rep, tier string) {
 	r.Instance(rule, 1)
 	find := func(fn *ssa.Function) string {
 		out := ""
+		isLimitPlus := func(v ssa.Value) (*ssa.BinOp, bool) {
+			bo, ok := v.(*ssa.BinOp)
+			return bo, ok && bo.Op == token.ADD && symKey(bo.X) == uint32ParamKey(fn)
+		}
+		// the reader: the value a bin's number is compared with
 		allInstrs(fn, func(ins ssa.Instruction) {
-			if bo, ok := ins.(*ssa.BinOp); ok && bo.Op == token.ADD && symKey(bo.X) == uint32ParamKey(fn) {
-				out = limitNorm(fn, typedKey(bo, 0))
+			cmp, ok := ins.(*ssa.BinOp)
+			if !ok || cmp.Op != token.EQL {
+				return
+			}
+			for _, pr := range [][2]ssa.Value{{cmp.X, cmp.Y}, {cmp.Y, cmp.X}} {
+				if strings.HasSuffix(strings.ToLower(symKey(pr[0])), ".bin") {
+					if bo, ok := isLimitPlus(pr[1]); ok {
+						out = limitNorm(fn, typedKey(bo, 0))
+					}
+				}
+			}
+		})
+		if out != "" {
+			return out
+		}
+		// the writer: the only limit+k it forms
+		allInstrs(fn, func(ins ssa.Instruction) {
+			if v, isVal := ins.(ssa.Value); isVal {
+				if bo, ok := isLimitPlus(v); ok {
+					out = limitNorm(fn, typedKey(bo, 0))
+				}
 			}
 		})
 		return out
@@ -1288,6 +1312,8 @@ func init() {
 			{Name: "PATH-SORT-BEFORE-WRITE", What: "writers sort before the first byte; sort() orders bins and chunks; readers re-establish the same order", Floor: 8, Run: ruleSortBeforeWrite},
 			{Name: "SORT-FLAG", What: "Add clears the sorted flag on every path that assigns a container sort() orders (new bin, linear index); sort() sets it (added after a blind second seed round – which also exposed the same defect in the unchanged tree)", Floor: 5, Run: ruleSortFlag},
 			{Name: "LIMIT-AGREE", What: "CSI bin limit and pseudo-bin number: same expression in the same integer types in writer and reader", Floor: 2, Run: ruleLimitAgree},
+			{Name: "COUNT-LIMIT", What: "a reader that bounds a reference's bin count leaves room for the statistics pseudo-bin the writer counts in (added after fifth-round seed C15-e; the CSI reader did not – repaired)", Floor: 2, Run: ruleCountLimit},
+			{Name: "SORT-ALL", What: "(*Index).sort orders bins, each bin's chunks and the linear index of every reference on every way round its loop (added after fifth-round seed C15-f)", Floor: 5, Run: ruleSortAll},
 			{Name: "STATS-ADD", What: "Add increments exactly one of mapped/unmapped/unplaced per accepted record, selected by its arguments; tabix names follow references", Floor: 4, Run: ruleStatsAdd},
 			{Name: "BIT-VOFFSET", What: "vOffset/makeOffset are inverse (bit domain)", Floor: 6, Run: ruleVOffset},
 		},
